@@ -27,7 +27,21 @@ CHECK_DEADLOCK FALSE
 CONSTANTS
   Alphabet = %s
   MaxLen = %d
+  Reps = {}
 """ % (alphabet, maxlen)
+
+
+def long_cfg(alphabet, unitlen, reps):
+    return """INIT Init
+NEXT LongNext
+INVARIANTS LongBoundSound
+CONSTRAINT LongEmit
+CHECK_DEADLOCK FALSE
+CONSTANTS
+  Alphabet = %s
+  MaxLen = %d
+  Reps = %s
+""" % (alphabet, unitlen, reps)
 
 
 def run(ctx):
@@ -40,6 +54,9 @@ def run(ctx):
     for name, alpha, n in plan:
         r = ctx.tlc("Emphasis", cfg(alpha, n), name=name, timeout=3000)
         outs.append(r["out"])
+    # long paragraphs: every unit <= 3/4 symbols with a delimiter, repeated 140 (and 300) times, in three frames
+    r = ctx.tlc("Emphasis", long_cfg(A5, 3 if ctx.tier == "quick" else 4, "{140}" if ctx.tier == "quick" else "{140, 300}"), name="Emphasis_long", timeout=3000, xss="1g")
+    outs.append(r["out"])
     if ctx.tier == "thorough":
         # seeded random longer strings (length up to 40) by TLC simulation of the same Next
         r = ctx.tlc("Emphasis", cfg(A8, 40), name="Emphasis_sim", simulate="num=4000", depth=41,
@@ -49,7 +66,8 @@ def run(ctx):
     ctx.absorb(res)
     ctx.exhaustive = True
     ctx.rule = ("every string over the alphabet up to the length bound (exhaustive, TLC) embedded in 3 contexts "
-                "(a..a, alone when the line is plain paragraph text, .s.); non-trivial = the spec procedure yields "
+                "(a..a, alone when the line is plain paragraph text, .s.); long paragraphs: every unit <= 3/4 symbols that holds a delimiter, repeated 140 (thorough: and 300) times "
+                "(bare, inside an outer emphasis, followed by a strong and an emphasis); non-trivial = the spec procedure yields "
                 ">= 1 emphasis node; distinct by document bytes")
     ctx.assumptions += ["Emphasis.tla is a faithful transcription of CommonMark 0.30 process-emphasis without openers_bottom",
                         "Unicode classes are sampled by NBSP, EM SPACE (Zs), form feed, tab; LAQUO (Pi), EM DASH (Pd); EACUTE (letter), EURO SIGN (Sc, not punctuation in 0.30) only"]
